@@ -287,7 +287,8 @@ var (
 	gbFlagKeys  = []string{"pseudo", "partial", "ribosomal_slippage", "trans_splicing", "environmental_sample"}
 	gbExtraKeys = []string{"COMMENT", "DBLINK", "DBSOURCE", "PROJECT", "PRIMARY", "CONTIG", "SEGMENT"}
 	hazardWords = []string{"JOURNAL", "TITLE", "AUTHORS", "ORIGIN", "FEATURES", "REFERENCE", "COMMENT", "PUBMED", "REMARK", "LOCUS", "SOURCE", "ORGANISM",
-		"/usr/bin", "/note=x", "a=b", "a/b=c", "=", "/", "key=value=more", "http://x.org/y", "1..5", "//x", "DNA", "circular", "linear", "bp", "12-APR-2020", "SYN"}
+		"/usr/bin", "/note=x", "a=b", "a/b=c", "=", "/", "key=value=more", "http://x.org/y", "1..5", "//x", "DNA", "circular", "linear", "bp", "12-APR-2020", "SYN",
+		"/translation=MKV", "/translation=\\", "/gene=x", "/product=", "/codon_start=1", "07-feb-2019", "LOCUS_1"}
 )
 
 const wordChars = "abcdefghijklmnopqrstuvwxyzABCDEFGHIJKLMNOPQRSTUVWXYZ0123456789.,;:()[]{}<>!?#$%&'*+-_@^`|~\\/="
@@ -377,6 +378,10 @@ func RandGBRecord(r *rand.Rand, seqLen int, maxFeatures int, maxText int) *GBRec
 		// spelling of a molecule type
 		word := []string{"dna", "mrna", "trna", "rrna", "rna"}[r.Intn(5)]
 		rec.Name = []string{word, word + "-" + strings.ToLower(RandWordAlnum(r, 3)), strings.ToLower(RandWordAlnum(r, 4)) + "." + word, word + ".1"}[r.Intn(4)]
+	}
+	if r.Intn(30) == 0 {
+		// preps and exports named after the day they were made: a date inside the (lower-case) name
+		rec.Name = strings.ToLower(RandWordAlnum(r, 2+r.Intn(4))) + "_" + fmt.Sprintf("%02d-%s-%d", 1+r.Intn(28), []string{"jan", "feb", "mar", "apr", "may", "jun", "jul", "aug", "sep", "oct", "nov", "dec"}[r.Intn(12)], 1990+r.Intn(35)) + []string{"", "_b", ".2"}[r.Intn(3)]
 	}
 	rec.MolType = gbMolTypes[r.Intn(len(gbMolTypes))]
 	rec.Topology = []string{"linear", "circular", ""}[r.Intn(3)]
